@@ -576,10 +576,12 @@ MANIFEST = dict(
         "normal form, from which the drawn-parameter bounds follow by real arithmetic; and a producer/consumer composition "
         "of the time warp: the drawn (centre, shift) terms are fed into the knot terms of warp_1d_grid and the moved knot "
         "must stay more than the epsilon guard away from both pinned knots for every draw on a grid (a well-posed spline "
-        "system is necessary for 'non-decreasing, within half a frame'). Necessary conditions of C08; spline and "
-        "grid_sample numerics are not decided."),
+        "system is necessary for 'non-decreasing, within half a frame'). warp_1d_grid is also interpreted over exact values up to the "
+        "spline (a leaf recording its control points): for centres inside, at the edges of and beyond the valid frames, shifts of either "
+        "sign and sequences shorter than the padded extent the three control points are the first frame, the clamped (shifted) centre "
+        "and the last VALID frame. Necessary conditions of C08; spline and grid_sample numerics are not decided."),
     level_note="Trusted: python ast; torch.rand in [0,1), .long() truncation; real-arithmetic idealisation of the eps tricks. "
                "Known finding F25: centre + shift in (L-1, L) is clamped onto the pinned last-frame knot (singular up to eps).",
-    technique="static analysis: abstract interpretation of the draw function over rationals compared with the documented formulas on a finite grid, slot-role dataflow, path typestate, eval-path identity, producer/consumer term composition over a finite grid; abstract interpretation of the mask application over {None, bool, set of bands} for the four masking combinations",
+    technique="static analysis: abstract interpretation of the draw function over rationals compared with the documented formulas on a finite grid, slot-role dataflow, path typestate, eval-path identity, producer/consumer term composition over a finite grid; abstract interpretation of the mask application over {None, bool, set of bands} for the four masking combinations; warp control points by interpretation of warp_1d_grid over exact values up to the spline leaf",
     design_ref="DESIGN.md section 4 C08",
 )
